@@ -542,14 +542,14 @@ def cases(tier, rng, escalate):
     for kind in kinds:
         for shape in shapes2:
             progs = mkprogs(shape)
-            for acts in _dfs(kind, progs, 7 if thorough else 5, True, 6000 if thorough else 260):
+            for acts in _dfs(kind, progs, 7 if thorough else 5, True, 2500 if thorough else 260):
                 yield _case(kind, progs, acts, "exhaustive")
         for shape in shapes3:
             progs = mkprogs(shape)
-            for acts in _dfs(kind, progs, 7 if thorough else 5, thorough, 6000 if thorough else 200):
+            for acts in _dfs(kind, progs, 7 if thorough else 5, thorough, 2500 if thorough else 200):
                 yield _case(kind, progs, acts, "exhaustive")
     # random part
-    n_random = 6000 if thorough else 900
+    n_random = 5000 if thorough else 900
     for _ in range(n_random):
         kind = rng.choice(kinds)
         ntasks = rng.choice([2, 3, 3, 4])
